@@ -100,15 +100,11 @@ def check_call(fname, positional, kwargs):
         got, raised = None, e
     except Exception as e:  # any other exception type is not the documented failure mode
         raise Violation(f"{fname}({positional}, {kwargs}) raised {type(e).__name__}: {e}")
-    if not CAPTURED:
-        raise Violation(f"{fname}: the wrapper did not run a command")
-    wrapper_argv = CAPTURED[-1][1:]
+    # (a wrapper that answers without spawning a process is judged by the value it returns;
+    #  stale answers are the business of the stateful sub-check below)
+    wrapper_argv = CAPTURED[-1][1:] if CAPTURED else None
     # every flag the wrapper passes is an option of the sub-command
     opts = HELP[fname]
-    for a in wrapper_argv[1 + len(positional):]:
-        if a.startswith("--") and a[2:] not in opts and a[2:].split("=")[0] not in opts:
-            # values may legitimately start with "--"; only complain when it sits in flag position
-            pass
     if expected.returncode != 0:
         if raised is None:
             raise Violation(f"command line {argv} fails (exit {expected.returncode}: {expected.stderr.strip()[:200]}) but {fname}(**{kwargs}) returned {got!r}")
@@ -122,7 +118,7 @@ def check_call(fname, positional, kwargs):
             raise Violation(f"{fname} returned unstripped text {got!r}")
     # None / False arguments add nothing: argv identical to the call without them
     pruned = {k: v for k, v in kwargs.items() if v is not None and v is not False}
-    if pruned != kwargs:
+    if pruned != kwargs and wrapper_argv is not None:
         CAPTURED.clear()
         try:
             fn(*positional, **pruned)
@@ -256,6 +252,51 @@ def run_property(tier, seed_value):
             else:
                 raise
 
+    # (2b) stateful: the same call repeated while the repository changes must follow the command line
+    OPS = ["commit", "tag", "dirty", "clean", "call-version", "call-flow", "call-version-zerv"]
+    @seed(seed_value + 2)
+    @settings(max_examples=12 if tier == "quick" else 150, database=None, deadline=None, suppress_health_check=list(HealthCheck))
+    @given(st.lists(st.sampled_from(OPS), min_size=3, max_size=9))
+    def stateful(ops):
+        repo = tempfile.mkdtemp(prefix="st-", dir=TMP)
+        genv = dict(ENV, GIT_AUTHOR_NAME="t", GIT_AUTHOR_EMAIL="t@e", GIT_COMMITTER_NAME="t", GIT_COMMITTER_EMAIL="t@e")
+        def git(*a, date=None):
+            e = dict(genv)
+            if date: e["GIT_AUTHOR_DATE"] = e["GIT_COMMITTER_DATE"] = f"{date} +0000"
+            _real_run(["git", *a], cwd=repo, env=e, check=True, capture_output=True, stdin=subprocess.DEVNULL)
+        git("init", "-q", "-b", "main", "."); git("commit", "-q", "--allow-empty", "-m", "c0", date=1600000000); git("tag", "v0.1.0")
+        n = [1]
+        try:
+            for op in ops + ["call-version", "call-flow"]:
+                if op == "commit":
+                    git("commit", "-q", "--allow-empty", "-m", f"c{n[0]}", date=1600000000 + 1000 * n[0]); n[0] += 1
+                elif op == "tag":
+                    try: git("tag", f"v0.{n[0]}.0")
+                    except subprocess.CalledProcessError: pass
+                elif op == "dirty":
+                    open(os.path.join(repo, "untracked.txt"), "w").write("x")
+                elif op == "clean":
+                    try: os.remove(os.path.join(repo, "untracked.txt"))
+                    except FileNotFoundError: pass
+                elif op == "call-version":
+                    guarded("version", [], {"repo_path": repo})
+                elif op == "call-version-zerv":
+                    guarded("version", [], {"repo_path": repo, "output_format": "zerv"})
+                else:
+                    guarded("flow", [], {"repo_path": repo, "post_mode": "commit"})
+        finally:
+            shutil.rmtree(repo, ignore_errors=True)
+    try:
+        stateful()
+        label("stateful-sequences")
+    except Violation:
+        violations.append(dict(FAIL)); COUNTING[0] = True
+    except Exception:
+        if FAIL["case"]:
+            violations.append(dict(FAIL)); COUNTING[0] = True; FAIL["case"] = None
+        else:
+            raise
+
     # (3) every long option of the clap definitions is reachable from a keyword (or a documented exception)
     EXC = {"help", "llm-help"}
     EXC_PER = {"version": {"verbose"}, "render": {"verbose"}, "check": set(), "flow": set()}
@@ -341,7 +382,7 @@ def main():
             "coverage": {
                 "evaluations": STATS["evaluations"] + regress,
                 "distinct_nontrivial": len(STATS["nontrivial"]),
-                "rule": "cases = calls zerv.version/flow/check/render(**kwargs): every keyword individually with values from a per-keyword strategy (finite: each keyword of the four functions) and Hypothesis-generated random subsets of keywords incl. None/False values; plus the option-parity table (every long option in `zerv <sub> --help` reachable from a keyword, every keyword's flag listed in --help). Oracle (differential): the equivalent command line built independently from the keyword names ('_'->'-', repo_path->--directory) and run against the freshly built binary: same stripped stdout, RuntimeError iff the command fails, None/False keywords leave the executed argv unchanged. Non-trivial = call with >= 1 non-None keyword beyond the base arguments whose command line succeeds; distinct = distinct (function, arguments).",
+                "rule": "cases = calls zerv.version/flow/check/render(**kwargs): every keyword individually with values from a per-keyword strategy (finite: each keyword of the four functions) and Hypothesis-generated random subsets of keywords incl. None/False values; stateful sequences (commit / tag / dirty / clean interleaved with the same version/flow call on one repository in one Python process); plus the option-parity table (every long option in `zerv <sub> --help` reachable from a keyword, every keyword's flag listed in --help). Oracle (differential): the equivalent command line built independently from the keyword names ('_'->'-', repo_path->--directory) and run against the freshly built binary: same stripped stdout, RuntimeError iff the command fails, None/False keywords leave the executed argv unchanged. Non-trivial = call with >= 1 non-None keyword beyond the base arguments whose command line succeeds; distinct = distinct (function, arguments).",
                 "samples": STATS["samples"][:8] or [{"note": "no sample"}],
                 "labels": STATS["labels"],
                 "keywords_covered": sum(1 for k in STATS["labels"] if k.startswith("keyword:")),
